@@ -93,10 +93,10 @@ impl AdditionalLifecycleEventsSet {
                 old(additional_lifecycle_register)@.contains(x) || x == old(token_factory).reg(),
             forall|x: RegistrationToken| old(additional_lifecycle_register)@.contains(x) ==> final(additional_lifecycle_register)@.contains(x),
             // deferred (source is being dispatched) or failed: nothing changed
-            (r is Err || r == Ok::<bool, crate::Error>(false)) ==> final(additional_lifecycle_register)@ == old(additional_lifecycle_register)@,
+            (r is Err || r matches Ok(false)) ==> final(additional_lifecycle_register)@ == old(additional_lifecycle_register)@,
             final(token_factory).reg() == old(token_factory).reg(),
-            r == Ok::<bool, crate::Error>(true) ==> self.w_reregistered(old(token_factory).reg()),
-            r == Ok::<bool, crate::Error>(false) ==> self.w_deferred(),
+            r matches Ok(true) ==> self.w_reregistered(old(token_factory).reg()),
+            r matches Ok(false) ==> self.w_deferred(),
 //@ enditem
 //@ item src/sources/mod.rs / trait EventDispatcher / fn unregister props=C14,C15,C06,C07 ret=r
 //@ spec
@@ -111,10 +111,10 @@ impl AdditionalLifecycleEventsSet {
                 (final(additional_lifecycle_register)@.contains(x) <==> old(additional_lifecycle_register)@.contains(x)),
             final(additional_lifecycle_register)@.contains(registration_token) ==> old(additional_lifecycle_register)@.contains(registration_token),
             // deferred (source is being dispatched) or failed: nothing changed
-            (r is Err || r == Ok::<bool, crate::Error>(false)) ==> final(additional_lifecycle_register)@ == old(additional_lifecycle_register)@,
+            (r is Err || r matches Ok(false)) ==> final(additional_lifecycle_register)@ == old(additional_lifecycle_register)@,
             self.w_unregister_called(registration_token),
-            r == Ok::<bool, crate::Error>(true) ==> self.w_unregistered(registration_token),
-            r == Ok::<bool, crate::Error>(false) ==> self.w_deferred(),
+            r matches Ok(true) ==> self.w_unregistered(registration_token),
+            r matches Ok(false) ==> self.w_deferred(),
 //@ enditem
 //@ item src/sources/mod.rs / trait EventDispatcher / fn before_sleep props=C14,C12 ret=r
 //@ spec
